@@ -457,6 +457,23 @@ def run(ctx):
                         'the flusher sleeps in `%s`, which close() does not interrupt (close sets %s): with a flush interval longer than the close '
                         'timeout, close() returns while operations are still buffered and the wrapped cassette is closed under them' % (
                             norm(n), sorted(x for x in set_by_close if x))))
+    # the join is unconditional: an empty buffer does not mean an idle flusher (it swaps the buffer out before it applies the batch)
+    from .common import guards_of as _guards_of
+    jg = [(s_, [c_ for c_ in conds if not (isinstance(c_[0], ast.Name) and c_[0].id.startswith('<handler'))]) for s_, conds in
+          _guards_of(close.node, lambda x: isinstance(x, ast.Call) and isinstance(x.func, ast.Attribute) and x.func.attr == 'join' and
+                     ftypes.get(self_attr(x.func.value), ('', ''))[1] == 'threading.Thread')]
+    def _about_thread(t_):
+        # tests on the thread itself (is_alive() / started) do not skip a join that could have waited for anything
+        fs_ = {self_attr(x) for x in ast.walk(t_) if isinstance(x, ast.Attribute) and self_attr(x)}
+        return bool(fs_) and all(ftypes.get(f_, ('', ''))[1] == 'threading.Thread' for f_ in fs_) and not any(isinstance(x, ast.Name) and x.id != 'self' for x in ast.walk(t_))
+    jg = [(s_, [c_ for c_ in conds if not _about_thread(c_[0])]) for s_, conds in jg]
+    guarded_join = [(s_, conds) for s_, conds in jg if conds]
+    cf.instance('close() joins the flusher unconditionally', close.qualname, bool(jg) and not guarded_join)
+    for s_, conds in guarded_join[:1]:
+        res.add(Finding('C12', 'C12.f', 'R-ORDER', close.file, close.qualname, s_.lineno, 'join only when `%s`' % norm(conds[0][0])[:80],
+                        'close() joins the flusher thread only when `%s`: the flusher takes the batch out of the buffer before it applies it, so with an '
+                        'empty buffer it can still be inside a storage write - close() then closes the wrapped cassette under it and returns before the '
+                        'recording is stored' % norm(conds[0][0])[:80]))
     cf.instance('close(): stop signal (line %s) -> join (%s) -> wrapped close (%s)' % (ln.get('signal'), ln.get('join'), ln.get('wrapped-close')), close.qualname, okf)
     cf.evaluations += 1
     if not okf:
